@@ -39,7 +39,9 @@ VALS = ['', 'a', 'hello', 'a' + ZW, ZW, ZW + ZW, 'a' + ZW + 'b' + ZW, ZW + 'x', 
         ':<5', '%{if-debug}', '%{endif}', '\u00e9\U0001F600', '\U0001F600\U0001F600\U0001F600', '\u200c', '\ufeff', 'a\u200cb\ufeff',
         'long value with spaces', 'x' * 9, 'debug', '!', '<', '^>', ' ', '  padded  ', '\t', '0', '-1']
 CATS = ['default', 'net', 'a.b', '%{x}', '', None, 'qt.core.very.long.category.name', 'c}%']
-FILES = ['/a/b/c.cpp', 'c.cpp', '/a/bx/c.cpp', 'C:\\d\\e.cpp', '', '/a/b', '/a/b/', None, '../src/x.cpp', '/a/b\\c.cpp']
+FILES = ['/a/b/c.cpp', 'c.cpp', '/a/bx/c.cpp', 'C:\\d\\e.cpp', '', '/a/b', '/a/b/', None, '../src/x.cpp', '/a/b\\c.cpp',
+         '/base/x.cpp', '/basement/x.cpp', '/base', '/base/', '/home/user/project/src/main.cpp', 'base\\x.cpp', 'basex.cpp', '/', '//x.cpp',
+         '/a/b//c.cpp', 'C:\\dir\\e.cpp']
 FUNCS = ['void f()', '', 'int A::g(int) const', 'virtual void NS::C<T>::m(const QString &) [with T = int]', None,
          'operator()', 'main']
 TFS = ['hh:mm:ss', 'yyyy-MM-dd', 'process', 'boot', 'hh:mm:ss.zzz', 'yyyy-MM-ddThh:mm:ss', 'dd.MM.yyyy', 'hh']
@@ -121,7 +123,9 @@ class Gen:
         elif x < 0.35:
             body = 'file'
         elif x < 0.41:
-            body = r.choice(['shortfile', 'shortfile /a/b', 'shortfile /a', 'shortfile  /a/b  ', 'shortfile c.cpp', 'shortfile ', 'shortfile C:\\d'])
+            body = r.choice(['shortfile', 'shortfile /a/b', 'shortfile /a', 'shortfile  /a/b  ', 'shortfile c.cpp', 'shortfile ', 'shortfile C:\\d',
+                             'shortfile /', 'shortfile /base/', 'shortfile /base', 'shortfile base\\', 'shortfile /a/b/', 'shortfile /a/b//',
+                             'shortfile \\', 'shortfile /a/b\\', 'shortfile C:\\d\\', 'shortfile /a/b/c.cpp', 'shortfile //'])
         elif x < 0.45:
             body = 'line'
         elif x < 0.49:
@@ -227,6 +231,14 @@ class Gen:
                           for t in r.sample(['debug', 'info', 'warning', 'critical', 'fatal'], r.randint(1, 3)))
         c = {'pat': pat, 'type': r.randrange(5), 'msg': (None if r.random() < 0.02 else self.value()), 'cat': r.choice(CATS), 'file': r.choice(FILES),
              'fn': r.choice(FUNCS), 'line': r.choice([42, 0, 1, 99999, -1, 2147483647]), 'attrs': attrs}
+        x = r.random()
+        if x < 0.15:
+            # another formatter ran before: the message already carries formatted text; %{message} is still the raw text
+            c['prefmt'] = r.choice(['FORMATTED', '', 'other text ' + ZW, '%{message}', '[info] x'])
+            self.hit('message:pre-formatted')
+        elif x < 0.25:
+            c['twice'] = True
+            self.hit('message:formatted-twice')
         self.hit('ntok-items:%d' % min(n, 10))
         return c
 
@@ -257,6 +269,7 @@ def impl_line(c):
     for k, t, v in c['attrs']:
         f += [hx(k), (t + hx(v)) if t == 's' else (t + str(v))]
     f += [str(len(ENVF))] + [hx(t) for t in ENVF]
+    f += [hx(c.get('prefmt')), '1' if c.get('twice') else '0']
     return ' '.join(f)
 
 
@@ -306,7 +319,7 @@ def evaluate(cases, impl, model):
 
 
 def describe(c, r):
-    d = {'case': c, 'pattern': c['pat'], 'message': c['msg'], 'type': c['type'], 'attributes': c['attrs'],
+    d = {'case': c, 'pattern': c['pat'], 'message': c['msg'], 'type': c['type'], 'attributes': c['attrs'], 'file': c.get('file'), 'pre_formatted_with': c.get('prefmt'), 'formatted_twice': bool(c.get('twice')),
          'has_zero_width_space': ZW in ((c['msg'] or '') + c['pat'] + ''.join(str(a[2] or '') for a in c['attrs'])),
          'implementation_output': unhx(r.get('impl', '')), 'model_output': unhx(r.get('model', '')),
          'documented_concatenation': unhx(r.get('full', '')), 'active_removing_optional_attributes': r.get('nrem'),
@@ -466,7 +479,10 @@ def run():
         what = ('output differs from the token-by-token concatenation of literal text and padded values although no optional attribute asks for a removal'
                 if cls == 'verbatim' else
                 'with a missing optional attribute the output is not the documented concatenation minus at most the requested characters')
-        chk.fail('%s: pattern %r message %r -> %r, documented %r' % (what, small['pat'], small['msg'], unhx(r['impl']), unhx(r['full'])),
+        ctx = ''.join([' file %r' % small['file'] if 'file' in small['pat'] else '',
+                       ' (message pre-formatted with %r by an earlier formatter)' % small['prefmt'] if small.get('prefmt') is not None else '',
+                       ' (second pass: the formatter had already processed this message)' if small.get('twice') else ''])
+        chk.fail('%s: pattern %r message %r%s -> %r, documented %r' % (what, small['pat'], small['msg'], ctx, unhx(r['impl']), unhx(r['full'])),
                  dict(describe(small, r), kind=cls, falsified_cases=len(sel), model_disagrees=r['impl'] != r['model']), kind=cls)
     if differs and not falsified:
         i = min(differs, key=lambda i: len(cases[i]['pat']) + len(cases[i]['msg'] or ''))
@@ -485,7 +501,7 @@ def run():
     keyset = {(c['pat'], c['msg'], c['type'], json.dumps(c['attrs'])) for i, c in enumerate(cases) if i in set(ok) and res[i]['ntok'] >= 2}
     chk.cov.update({
         'evaluations': len(cases), 'distinct_nontrivial': len(keyset),
-        'rule': 'grammar-directed patterns (all placeholders, if-*/endif, optional attributes with N,M in 0..5 and odd counts, every '
+        'rule': 'a share of messages already carries formatter output (setFormattedMessage before / Formatter::process run first): %{message} is the raw text always; grammar-directed patterns (shortfile bases with trailing separators and sibling-prefix files, all placeholders, if-*/endif, optional attributes with N,M in 0..5 and odd counts, every '
                 'fill/align/width/! combination, %%, lone and trailing %, unterminated and unknown placeholders) x values biased to '
                 "% { } : ? U+200B U+200C U+FEFF astral empty long; non-trivial = parses to >= 2 tokens; corpus/C12 replayed first",
         'corpus_cases': len(corpus), 'disagreements_model_vs_impl': len(differs), 'oracle_evaluated_on_impl_outputs': len(ok),
@@ -533,7 +549,9 @@ def replay(path):
     model = vlib.build_model('pattern'); impl = vlib.build_harness('pattern')
     x = evaluate([c], impl, model)[0]
     print('pattern        %r' % c['pat'])
-    print('message        %r  type=%d attributes=%r' % (c['msg'], c['type'], c['attrs']))
+    print('message        %r  type=%d attributes=%r file=%r category=%r' % (c['msg'], c['type'], c['attrs'], c.get('file'), c.get('cat')))
+    if c.get('prefmt') is not None or c.get('twice'):
+        print('               pre-formatted with %r, formatted twice: %s' % (c.get('prefmt'), bool(c.get('twice'))))
     if x['crashed']:
         print('implementation CRASHED/THREW: %s' % x.get('impl_raw')); return 0
     ml, _ = model_line(c, vlib.run_lines(impl, [impl_line(c)])[1][0])
